@@ -14,15 +14,16 @@ from .c13 import output_extent
 from . import c13, c14
 from .c14 import state_term
 
-TITLE = ("Structural necessary conditions of 'parallel == block by block' (values are not decided): (R1) in every loop of "
-         "the six public parallel functions all cursors (output, input, Mantis tweak) advance by exactly what size "
-         "decreases by, that amount is what the callee consumes (parallel_size for the vtable slot, BLOCK for the scalar "
-         "tail), the callee receives the current cursors, and the loop guard is size >= that amount; (R2) the advertised "
-         "parallel_size equals the bytes the selected slot target writes; (R3) lane independence on the -O3 IR of every "
-         "vector ECB function: each byte stored to output block b may depend only on input block b (and tweak block b), "
-         "every output byte of the batch is written; (R4) encrypt dispatches only to forward walkers, decrypt only to "
-         "backward walkers (slot and scalar tail), the Mantis tail passes the tweak cursor; (R5) sizes that are not a "
-         "whole number of blocks are rejected and the zero-length call succeeds without touching memory.")
+TITLE = ("Necessary conditions of 'parallel == block by block' (S-box values are not decided): (R1) consumed-bytes model "
+         "of every data loop of the six public parallel functions: every loop-carried cursor, index or remaining size "
+         "moves by one amount per iteration (parallel_size for the vtable slot, BLOCK for the scalar tail = what the "
+         "callee consumes), every data buffer reaches the call as parameter + bytes consumed so far, and a test before the "
+         "call implies size - consumed >= that amount; (R2) the advertised parallel_size equals the bytes the selected "
+         "slot target writes; (R3) lane independence on the -O3 IR of every vector ECB function and full coverage of the "
+         "batch; (R4) encrypt dispatches only to forward walkers, decrypt only to backward walkers; (R5) sizes that are "
+         "not whole blocks are rejected, the zero-length call succeeds; (R6) GF(2) affine interpretation: every block of "
+         "every parallel round function has the scalar function's linear layer, and output byte o bit b is written from "
+         "the state bit loaded from input byte o bit b.")
 
 
 class _NoTerms:
